@@ -52,6 +52,44 @@ class ScriptedEdge(CE._Custom):
         return [np.eye(2)]
 
 
+# chi2 sequences outside the model's small value alphabet: explosive growth, collapse to denormals, plateaus at huge / tiny scales
+SCRIPTS = {
+    "explode": [1.0 + 10.0 ** (7 * k) for k in range(12)],
+    "explode_then_settle": [2.0, 1e9, 1e17, 1e17, 1e17, 5.0, 5.0, 5.0, 5.0, 5.0, 5.0, 5.0],
+    "collapse": [1.0 + 10.0 ** (-3 * k) for k in range(12)],
+    "huge_plateau": [1e12, 1e12 - 1e3, 1e12 - 1e3 - 1.0, 1e12 - 2e3] + [1e12 - 2e3] * 8,
+    "slow": [1.0 + 100.0 * 0.9 ** k for k in range(12)],
+}
+
+
+def replay_script(case):
+    """a scripted chi2 sequence through the real optimizer vs the documented rule (vf/ref/stoprule.py)"""
+    msgs = []
+    hist = SCRIPTS[case["script"]]
+    a = [math.sqrt(h - 1.0) for h in hist]
+    v = I.Vertex(0, I.mk_pose("R2", [0.0, 0.0]))
+    e = ScriptedEdge([0], np.eye(2), np.zeros(2))
+    e.script = a
+    g = I.Graph([e], [v])
+    chi = lambda t: float(a[min(t, len(a) - 1)] ** 2 + 1.0)
+    exp = SR.predict(chi, case["tol"], case["max_iter"])
+    r = GB.optimize(g, tol=case["tol"], max_iter=case["max_iter"], fix_first_pose=False, verbose=case["verbose"])
+    got = {"converged": bool(r.converged), "num_iterations": r.num_iterations, "n_results": len(r.iteration_results), "updates": int(round(float(v.pose[1])))}
+    for k in got:
+        if got[k] != exp[k]:
+            msgs.append("script %s, tol %g, max_iter %d, verbose %s: %s = %r, the documented rule gives %r" % (case["script"], case["tol"], case["max_iter"], case["verbose"], k, got[k], exp[k]))
+    if not msgs:
+        if not _same(float(r.initial_chi2), exp["initial"]) or not _same(float(r.final_chi2), exp["final"]):
+            msgs.append("script %s: initial/final chi2 %r / %r, expected %r / %r" % (case["script"], r.initial_chi2, r.final_chi2, exp["initial"], exp["final"]))
+        chis = [it.chi2 for it in r.iteration_results]
+        if len(chis) != len(exp["chi2s"]) or any((c is None) != (x is None) or (c is not None and not _same(float(c), x)) for c, x in zip(chis, exp["chi2s"])):
+            msgs.append("script %s: iteration chi2 values %r, expected %r" % (case["script"], chis, exp["chi2s"]))
+        rds = [it.rel_diff for it in r.iteration_results]
+        if len(rds) != len(exp["rel_diffs"]) or any((c is None) != (x is None) or (c is not None and abs(float(c) - x) > 1e-9 * (1.0 + abs(x))) for c, x in zip(rds, exp["rel_diffs"])):
+            msgs.append("script %s: iteration rel_diff values %r, expected %r" % (case["script"], rds, exp["rel_diffs"]))
+    return msgs
+
+
 def replay_behaviour(b, max_iter):
     """b: terminal state of the model.  Returns list of messages."""
     msgs = []
@@ -274,6 +312,7 @@ def chunks(tier, seed):
         parts = 1 if m <= 3 else (4 if m == 4 else 16)
         for p in range(parts):
             out.append(("model", k, p, parts))
+    out.append(("script", 0, 0, 1))
     gs = direct_graphs(tier, seed)
     for gi in range(len(gs)):
         out.append(("direct", gi, 0, 1))
@@ -288,6 +327,23 @@ _TLC_CACHE = {}
 def run_chunk(chunk, tier, seed):
     typ, k, part, parts = chunk
     acc = Acc(ID, signature)
+    if typ == "script":
+        for name in sorted(SCRIPTS):
+            for tol in (0.0, 1e-6, 1e-4, 0.05, 0.5):
+                for mi in (1, 2, 3, 5, 8, 11):
+                    for vb in (False, True):
+                        case = {"t": "script", "script": name, "tol": tol, "max_iter": mi, "verbose": vb}
+                        acc.evals += 1
+                        acc.states += mi
+                        acc.transitions += mi
+                        acc.traces += 1
+                        acc.nontrivial += 1
+                        acc.cls("scripted_extreme_sequences")
+                        msgs = _eval_script(case)
+                        if msgs:
+                            acc.violation(case, msgs)
+                        acc.sample(case, 1)
+        return acc
     if typ == "model":
         m, tols = model_instances(tier)[k]
         used_tlc = TLC.available()
@@ -386,6 +442,8 @@ def _eval(case, info=None):
     info = info if info is not None else {}
     try:
         t = case["t"]
+        if t == "script":
+            return _eval_script(case)
         if t == "tlc":
             res = TLC.run(case["max_iter"], CHI2S, [tuple(x) for x in case["tols"]])
             return [] if (res["ok"] and res["consistent_tree"]) else ["TLC: " + res["stdout_tail"][-600:]]
@@ -403,6 +461,19 @@ def _eval(case, info=None):
         import traceback
 
         return ["raised %s: %s | %s" % (type(ex).__name__, ex, traceback.format_exc()[-600:])]
+
+
+def _eval_script(case):
+    import contextlib
+    import io
+
+    try:
+        with contextlib.redirect_stdout(io.StringIO()):
+            return replay_script(case)
+    except Exception as ex:
+        import traceback
+
+        return ["raised %s: %s | %s" % (type(ex).__name__, ex, traceback.format_exc()[-400:])]
 
 
 def _eval_direct(case, spec, info):
